@@ -1121,11 +1121,14 @@ impl DbInner {
 					reader.record_id(),
 				);
 				if validation_mode {
-					if reader.record_id() != self.last_enacted.load(Ordering::Relaxed) + 1 {
+					// The id is read from the file. The largest one is never written: no id is left
+					// for the record after it.
+					let expected = self.last_enacted.load(Ordering::Relaxed).saturating_add(1);
+					if reader.record_id() != expected || reader.record_id() == u64::MAX {
 						log::warn!(
 							target: "parity-db",
 							"Log sequence error. Expected record {}, got {}",
-							self.last_enacted.load(Ordering::Relaxed) + 1,
+							expected,
 							reader.record_id(),
 						);
 						drop(reader);
